@@ -35,7 +35,7 @@ func (r *Runner) replayPartial(l *Line) lineResult {
 			continue
 		}
 		w.partialStep(&steps[i])
-		w.checkRoots(steps[i].Post, "C09")
+		w.checkRoots(steps[i].Post, "C01", "C09")
 	}
 	if l.Step.A != "missq" {
 		w.partialCompare(&l.Expect)
